@@ -18,6 +18,10 @@ struct Case {
     generic: bool,
     /// `#[derive_ex(Copy, Clone)]` with Copy field types whose Clone still logs
     with_copy: bool,
+    /// named fields are raw identifiers (r#type, r#fn, ..)
+    raw: bool,
+    /// explicit bound(..) without `..`: 0 none, 1 on the type (`Clone(bound(T: Clone))`), 2 on the first field
+    bound: usize,
     entry: Entry,
 }
 
@@ -25,7 +29,15 @@ fn gen(ch: &mut Ch, thorough: bool) -> Option<Case> {
     let shape = if thorough { pick_shape(ch, 4, 3, false) } else { pick_shape(ch, 3, 2, false) };
     let generic = ch.flag();
     let with_copy = ch.flag();
+    let raw = ch.flag();
+    let bound = ch.pick(3);
     let entry = *ch.of(&Entry::BOTH);
+    if raw && (generic || with_copy || entry == Entry::Derive || !shape.variants.iter().any(|v| v.kind == SKind::Named && v.n > 0)) {
+        return None;
+    }
+    if bound != 0 && (!generic || raw || entry == Entry::Derive || shape.variants.len() > 2 || shape.variants[0].n == 0) {
+        return None;
+    }
     if with_copy && (generic || (entry == Entry::Derive && shape.variants.len() > 1)) {
         return None;
     }
@@ -38,7 +50,7 @@ fn gen(ch: &mut Ch, thorough: bool) -> Option<Case> {
     if thorough && shape.variants.len() == 4 && (generic || entry == Entry::Derive) {
         return None;
     }
-    Some(Case { vector: ch.vector(), shape, generic, with_copy, entry })
+    Some(Case { vector: ch.vector(), shape, generic, with_copy, raw, bound, entry })
 }
 
 fn field_ty(c: &Case, _vi: usize, fi: usize) -> String {
@@ -67,11 +79,18 @@ fn ids(base: u32, vi: usize, n: usize) -> Vec<u32> {
 }
 
 fn build(c: &Case, tier: &str) -> XCase {
+    set_raw_field_names(c.raw);
+    let r = build_inner(c, tier);
+    set_raw_field_names(false);
+    r
+}
+
+fn build_inner(c: &Case, tier: &str) -> XCase {
     let sh = &c.shape;
     let ty = |vi: usize, fi: usize| field_ty(c, vi, fi);
-    let noattrs = |_: usize, _: usize| Vec::new();
+    let noattrs = |vi: usize, fi: usize| if c.bound == 2 && vi == 0 && fi == 0 { vec!["#[derive_ex(Clone(bound(T: ::core::clone::Clone)))]".to_string()] } else { Vec::new() };
     let item = sh.item(if c.generic { "<T>" } else { "" }, &ty, &noattrs);
-    let list = if c.with_copy { "Copy, Clone" } else { "Clone" };
+    let list = if c.with_copy { "Copy, Clone" } else if c.bound == 1 { "Clone(bound(T: ::core::clone::Clone))" } else { "Clone" };
     let head = match c.entry {
         Entry::Attr => format!("#[derive_ex({list})]"),
         Entry::Derive => format!("#[derive(Ex)]\n#[derive_ex({list})]"),
@@ -118,6 +137,8 @@ fn build(c: &Case, tier: &str) -> XCase {
     atoms.insert(format!("kind={}", if sh.is_enum { "enum" } else { "struct" }));
     atoms.insert(format!("generic={}", c.generic));
     atoms.insert(format!("with_copy={}", c.with_copy));
+    atoms.insert(format!("raw={}", c.raw));
+    atoms.insert(format!("bound={}", c.bound));
     atoms.insert(format!("nvariants={}", nv));
     XCase {
         text: format!("{} {} {}", c.entry.name(), list, item.print()),
